@@ -15,6 +15,8 @@ SPEC = {
         {"name": "concurrent-reset", "pkg": PD, "kind": "rapid", "run": "^TestVerifC12ConcurrentReset$",
          "quick": {"checks": 300, "shards": 2, "timeout": 300},
          "thorough": {"checks": 2000, "shards": 4, "timeout": 900, "race": True}},
+        {"name": "concurrent-build", "pkg": PD, "kind": "plain", "run": "^TestVerifC12ConcurrentBuild$",
+         "quick": {"shards": 2, "timeout": 300}, "thorough": {"shards": 4, "timeout": 900}},
     ],
 }
 
